@@ -12,7 +12,7 @@ EXTENDS Syncer, Json, IOUtils, TLC
 CONSTANT Strict
 Rec == ndJsonDeserialize(IOEnv.TRACE)
 VARIABLE l
-tvars == <<stored, pruned, foreign, sampled, now, netHead, peers, phase, subj, ongoing, hsub, sawPeer, lastFetch, l>>
+tvars == <<stored, pruned, foreign, sampled, now, netHead, peers, trusted, phase, subj, ongoing, hsub, sawPeer, lastFetch, l>>
 Ev == Rec[l]
 
 Observed(st) ==
@@ -31,16 +31,20 @@ FetchFacts(lo, hi) == [lo |-> lo, hi |-> hi, subj |-> subj, synced |-> Synced,
 TStrict ==
     LET n == Ev.name IN
     \/ n = "reset"   /\ stored' = {} /\ pruned' = {} /\ foreign' = {} /\ sampled' = {} /\ now' = Ev.now /\ netHead' = 1
-                     /\ peers' = 0 /\ phase' = "connecting" /\ subj' = 0 /\ ongoing' = <<>> /\ hsub' = FALSE
+                     /\ peers' = 0 /\ trusted' = FALSE /\ phase' = "connecting" /\ subj' = 0 /\ ongoing' = <<>> /\ hsub' = FALSE
                      /\ sawPeer' = FALSE /\ lastFetch' = NoFetch
     \/ n = "prefill" /\ Adopt(Ev.st) /\ netHead' = Ev.netHead
-                     /\ UNCHANGED <<now, peers, phase, ongoing, hsub, sawPeer, lastFetch>>
+                     /\ UNCHANGED <<now, peers, trusted, phase, ongoing, hsub, sawPeer, lastFetch>>
     \/ n = "mark"    /\ MarkSampled(Ev.h) /\ Observed(Ev.st)
     \/ n = "prune"   /\ Prune(Ev.h) /\ Observed(Ev.st)
     \/ n = "connect" /\ Connect /\ Observed(Ev.st)
     \/ n = "disconnect" /\ Disconnect /\ Observed(Ev.st)
+    \/ n = "plainjoin" /\ PlainJoin /\ Observed(Ev.st)
+    \/ n = "trustedleave" /\ TrustedLeave /\ Observed(Ev.st)
     \/ n = "newblock" /\ netHead' = Ev.netHead
-                      /\ UNCHANGED <<stored, pruned, foreign, sampled, now, peers, phase, subj, ongoing, hsub, sawPeer, lastFetch>>
+                      /\ UNCHANGED <<stored, pruned, foreign, sampled, now, peers, trusted, phase, subj, ongoing, hsub, sawPeer, lastFetch>>
+    \/ n = "tick"     /\ now' = Ev.now      \* real time passed (aging runs)
+                      /\ UNCHANGED <<stored, pruned, foreign, sampled, netHead, peers, trusted, phase, subj, ongoing, hsub, sawPeer, lastFetch>>
     \/ n = "headsub" /\ Ev.h = netHead /\ HeaderSub /\ Observed(Ev.st)
     \/ n = "tryinit" /\ Ev.h = netHead /\ TryInit /\ Observed(Ev.st)
     \/ n = "fetch"   /\ FetchNext /\ ongoing' = <<Ev.lo, Ev.hi>> /\ Observed(Ev.st)
@@ -50,17 +54,18 @@ TStrict ==
                         \/ Ev.kind = "fail" /\ BatchFail
                      /\ Observed(Ev.st)
     \/ n = "quiescent" /\ (Ev.check_live = 1 => (phase = "connected" /\ WindowStored))
-                       /\ UNCHANGED <<stored, pruned, foreign, sampled, now, netHead, peers, phase, subj, ongoing, hsub, sawPeer, lastFetch>>
+                       /\ UNCHANGED <<stored, pruned, foreign, sampled, now, netHead, peers, trusted, phase, subj, ongoing, hsub, sawPeer, lastFetch>>
 
 TLoose ==
     LET n == Ev.name IN
-    /\ UNCHANGED <<peers, phase, ongoing, hsub, sawPeer>>
+    /\ UNCHANGED <<peers, trusted, phase, ongoing, hsub, sawPeer>>
     /\ \/ n = "reset"   /\ stored' = {} /\ pruned' = {} /\ foreign' = {} /\ sampled' = {} /\ now' = Ev.now /\ netHead' = 1
                         /\ subj' = 0 /\ lastFetch' = NoFetch
        \/ n = "prefill" /\ Adopt(Ev.st) /\ netHead' = Ev.netHead /\ UNCHANGED <<now, lastFetch>>
-       \/ n \in {"mark", "prune", "connect", "disconnect", "headsub", "tryinit", "batch"}
+       \/ n \in {"mark", "prune", "connect", "disconnect", "plainjoin", "trustedleave", "headsub", "tryinit", "batch"}
                         /\ Adopt(Ev.st) /\ UNCHANGED <<now, netHead, lastFetch>>
        \/ n = "newblock" /\ netHead' = Ev.netHead /\ UNCHANGED <<stored, pruned, foreign, sampled, now, subj, lastFetch>>
+       \/ n = "tick"     /\ now' = Ev.now /\ UNCHANGED <<stored, pruned, foreign, sampled, netHead, subj, lastFetch>>
        \/ n = "fetch"   /\ Adopt(Ev.st) /\ UNCHANGED <<now, netHead>>
                         \* facts at request time, from the state the request was made in (= observed state)
                         /\ lastFetch' = [lo |-> Ev.lo, hi |-> Ev.hi, subj |-> Ev.st.subj,
